@@ -36,10 +36,14 @@ type recClient struct {
 	opIdx   int
 	zipMin  func() int64 // settings in force, read at hand-over
 	zipMins []int64
+	slow    time.Duration // transmission time of the client (free-running mode: a slow consumer)
 }
 
 func (c *recClient) SendFlush(p pack.Pack, flush bool, opts ...wnet.TcpClientOption) error {
 	z, ok := p.(*pack.ZipPack)
+	if c.slow > 0 {
+		defer time.Sleep(c.slow) // runs after the unlock below: the "transmission" follows the hand-over
+	}
 	c.mu.Lock()
 	defer c.mu.Unlock()
 	if !ok {
@@ -339,12 +343,16 @@ func runDet(c *Case, e *evalCtx) *detResult {
 	var snd *zip.ZipSendProxyThread
 	snd = zip.NewForVerif(cl, toVS(c.Settings))
 	cl.zipMin = func() int64 { return int64(snd.SettingsForVerif().ZipMinSize) }
-	var dropped []int
-	snd.Queue.Failed = func(v interface{}) {
-		if p, ok := v.(*pack.LogSinkPack); ok {
-			dropped = append(dropped, int(p.Line))
+	var dropped []int // ids reported through the Failed callback (when installed)
+	if c.FailedCb {
+		snd.Queue.Failed = func(v interface{}) {
+			if p, ok := v.(*pack.LogSinkPack); ok {
+				dropped = append(dropped, int(p.Line))
+			}
 		}
 	}
+	refused := map[int]bool{} // ids the bounded queue must refuse (queue full at the time of Add)
+	fifoBroken := false
 	res := &detResult{}
 	var fifo []int   // mirror of the queue: ids accepted and not yet dequeued
 	var fed []int    // ids passed to Append, in order
@@ -368,16 +376,33 @@ func runDet(c *Case, e *evalCtx) *detResult {
 		flushOnly := false
 		switch o.K {
 		case "add":
+			// the unchanged queue semantics: a full bounded queue refuses the newcomer and keeps
+			// what it accepted; capacity <= 0 means unbounded
 			nd := len(dropped)
 			q0 := snd.Queue.Size()
+			capacity := snd.Queue.GetCapacity()
+			accept := capacity <= 0 || len(fifo) < capacity
+			if q0 != len(fifo) {
+				fifoBroken = true
+				e.prop("queue:size", "op %d: %d records should be queued, the queue holds %d", i, len(fifo), q0)
+			}
 			out = vh.Guard(func() { snd.Add(e.recs[o.R.ID].P) })
-			if len(dropped) == nd {
+			q1 := snd.Queue.Size()
+			if accept {
 				fifo = append(fifo, o.R.ID)
-				if snd.Queue.Size() != q0+1 {
-					e.prop("Add:queue-size", "op %d: Add accepted record %d but the queue size went %d -> %d", i, o.R.ID, q0, snd.Queue.Size())
+				if q1 != q0+1 || len(dropped) != nd {
+					e.prop("Add:dropped-below-capacity", "op %d: record %d added with %d queued, capacity %d: queue size %d -> %d, Failed callback calls %d",
+						i, o.R.ID, q0, capacity, q0, q1, len(dropped)-nd)
 				}
-			} else if st.QueueCap <= 0 || int64(q0) < st.QueueCap {
-				e.prop("Add:dropped-below-capacity", "op %d: record %d dropped with %d queued, capacity %d", i, o.R.ID, q0, st.QueueCap)
+			} else {
+				refused[o.R.ID] = true
+				if q1 != q0 {
+					fifoBroken = true
+					e.prop("Add:accepted-above-capacity", "op %d: record %d added to a full queue (capacity %d): queue size %d -> %d", i, o.R.ID, capacity, q0, q1)
+				}
+				if c.FailedCb && (len(dropped) != nd+1 || dropped[nd] != o.R.ID) {
+					e.prop("Add:failed-callback", "op %d: record %d refused by the full queue but the Failed callback was not called with it", i, o.R.ID)
+				}
 			}
 		case "append":
 			appended = o.R.ID
@@ -462,7 +487,14 @@ func runDet(c *Case, e *evalCtx) *detResult {
 		}
 		// flush conditions, evaluated on the implementation's own counters
 		cnt1, len1, _ := snd.BufferedForVerif()
-		if appended >= 0 {
+		if appended >= 0 && o.K == "step" && cl.n() == np0 && len1-len0 != len(e.recs[appended].Enc) && !fifoBroken {
+			fifoBroken = true
+			e.prop("queue:not-fifo", "op %d: the oldest accepted record is %d (%d bytes) but the record the loop dequeued and appended has %d bytes: the queue lost or reordered an accepted record",
+				i, appended, len(e.recs[appended].Enc), len1-len0)
+		}
+		if appended >= 0 && fifoBroken {
+			fed = append(fed, appended)
+		} else if appended >= 0 {
 			fed = append(fed, appended)
 			r := e.recs[appended]
 			must := int64(len0+len(r.Enc)) >= st.MaxBuf || (first0 != 0 && r.Spec.Time-first0 >= st.MaxWait)
@@ -510,6 +542,12 @@ func runDet(c *Case, e *evalCtx) *detResult {
 	}
 	cnt, blen, first := snd.BufferedForVerif()
 	if !e.hasKeySuffix(":undecodable") && !e.hasKeySuffix(":foreign-record") {
+		for _, id := range sharedIDs {
+			if refused[id] {
+				e.prop("emit:refused-record-emitted", "record %d was refused by the full queue (capacity %d) and emitted nevertheless", id, snd.Queue.GetCapacity())
+				break
+			}
+		}
 		// every record passed to Append is in exactly one pack, in order, or still buffered
 		if cnt < 0 || cnt > len(fed) || !eqInts(sharedIDs, fed[:len(fed)-cnt]) {
 			e.prop("emit:not-exactly-once-in-order", "records passed to Append: %s; emitted in shared packs: %s; still buffered: %d",
